@@ -328,6 +328,8 @@ func (s *Server) blobUploadPost(repoStr string) http.HandlerFunc {
 			}
 			err = s.blobClose(r.Context(), repoStr, bc)
 			if err != nil {
+				// the client was not given the session, it cannot be resumed
+				_ = bc.Cancel()
 				w.WriteHeader(http.StatusInternalServerError)
 				s.log.Info("failed to close blob", "repo", repoStr, "err", err)
 				return
